@@ -77,8 +77,12 @@ def run_seq(rng, res, kind, ty, nops):
             nextrid[1] += 1
             if nextrid[1] > 50:
                 nextrid[0] += 1; nextrid[1] = 0
-            if rng.random() < 0.05:
+            r = rng.random()
+            if r < 0.05:
                 return (rng.choice([0, 65535, 2**31 - 1]), rng.choice([0, 65535] if kind == "b" else [0, 65535, 2**32 - 1]))
+            if r < 0.2:
+                # every byte of the page id and of the slot number carries information
+                return (rng.randrange(0, 2**31), rng.randrange(0, 65536 if kind == "b" else 2**32))
             return (nextrid[0], nextrid[1])
         for step in range(nops):
             r = rng.random()
